@@ -231,6 +231,13 @@ fn e_frontend(op: u32, variant: usize) {
                         assert!(r.is_ok(), "C03: conformant reply must be accepted");
                     }
                 }
+                if op == fe::GET_QUEUE_NUM {
+                    // the bound every per-queue call is checked against: the accepted reply's value, otherwise untouched
+                    let n = f.node.try_lock().unwrap();
+                    let want = if r.is_ok() { spec::rd64(&rep.body, 0) } else { st.maxq };
+                    assert!(n.max_queue_num == want, "C02: a refused / failed GET_QUEUE_NUM leaves the known queue maximum unchanged; an accepted one sets it to the replied value");
+                    drop(n);
+                }
                 std::mem::forget(r);
             }
             fe::GET_VRING_BASE => {
@@ -597,6 +604,27 @@ fn e_frontend(op: u32, variant: usize) {
     }
     // SAFETY: single-threaded harness
     unsafe { c10_after_call() };
+    // cached negotiation state (every later gate and local queue-index check is decided on it): only the
+    // call that negotiates / queries a word may change that word
+    {
+        let n = f.node.try_lock().unwrap();
+        if op != fe::GET_QUEUE_NUM {
+            assert!(n.max_queue_num == st.maxq, "C02/C07: the known queue maximum changes only through a successful GET_QUEUE_NUM");
+        }
+        if op != fe::SET_FEATURES {
+            assert!(n.acked_virtio_features == st.av, "C07: acknowledged virtio features change only through SET_FEATURES");
+        }
+        if op != fe::SET_PROTOCOL_FEATURES {
+            assert!(n.acked_protocol_features == st.ap, "C07: acknowledged protocol features change only through SET_PROTOCOL_FEATURES");
+        }
+        if op != fe::GET_FEATURES {
+            assert!(n.virtio_features == st.v, "C07: offered virtio features change only through GET_FEATURES");
+        }
+        if op != fe::GET_PROTOCOL_FEATURES {
+            assert!(n.protocol_features == st.p, "C07: offered protocol features change only through GET_PROTOCOL_FEATURES");
+        }
+        drop(n);
+    }
     // with a reply that answers another request the witness is the error path
     let wrong = unsafe { REPLY_CLASS.0 >= 1 && REPLY_CLASS.0 <= 4 && g::G.rx_calls > 0 };
     kani::cover!(if wrong { !wit } else { wit }, "witness: the operation's success path (error path for a foreign reply) is reachable");
@@ -898,7 +926,7 @@ e_fe!(e_fe_set_vring_err, 14, 0);
 e_fe!(e_fe_get_protocol_features, 15, 0);
 // @harness props=C01,C02,C03,C06,C07,C10 tier=quick reach=off timeout=500 bound="Frontend::set_protocol_features: all argument values, five 64-bit negotiation/limit words, NEED_REPLY on/off, peer reply header of one concrete class (conformant unless named in the harness), 40 symbolic body bytes, 0..=2 descriptors; one call" stubs="vmm-sys-util raw_recvmsg/raw_sendmsg (ghost stream socket), libc::close + OwnedFd::drop (ghost descriptor table), handle_alloc_error (assume false)"
 e_fe!(e_fe_set_protocol_features, 16, 0);
-// @harness props=C01,C02,C03,C06,C07,C10 tier=thorough reach=off timeout=500 bound="Frontend::get_queue_num: all argument values, five 64-bit negotiation/limit words, NEED_REPLY on/off, peer reply header of one concrete class (conformant unless named in the harness), 40 symbolic body bytes, 0..=2 descriptors; one call" stubs="vmm-sys-util raw_recvmsg/raw_sendmsg (ghost stream socket), libc::close + OwnedFd::drop (ghost descriptor table), handle_alloc_error (assume false)"
+// @harness props=C01,C02,C03,C06,C07,C10 tier=quick reach=off timeout=500 bound="Frontend::get_queue_num: all argument values, five 64-bit negotiation/limit words, NEED_REPLY on/off, peer reply header of one concrete class (conformant unless named in the harness), 40 symbolic body bytes, 0..=2 descriptors; one call" stubs="vmm-sys-util raw_recvmsg/raw_sendmsg (ghost stream socket), libc::close + OwnedFd::drop (ghost descriptor table), handle_alloc_error (assume false)"
 e_fe!(e_fe_get_queue_num, 17, 0);
 // @harness props=C01,C02,C03,C06,C07,C10 tier=quick reach=off timeout=500 bound="Frontend::set_vring_enable: all argument values, five 64-bit negotiation/limit words, NEED_REPLY on/off, peer reply header of one concrete class (conformant unless named in the harness), 40 symbolic body bytes, 0..=2 descriptors; one call" stubs="vmm-sys-util raw_recvmsg/raw_sendmsg (ghost stream socket), libc::close + OwnedFd::drop (ghost descriptor table), handle_alloc_error (assume false)"
 e_fe!(e_fe_set_vring_enable, 18, 0);
